@@ -30,6 +30,52 @@ def _kernel_job(cases):
     return run_cases(cases)
 
 
+def _axis_job(cases, loop_ops, exact):
+    from harness.batchjobs import run_task
+
+    return run_task(cases, loop_ops, exact)
+
+
+def axis_operator_replay(ctx: Ctx, kind: str, engine: str) -> int:
+    """J2O_Batching: axis-parameterised operators, `direct` (C01) or under `vmap` (C10)."""
+    from harness import batchjobs as B
+
+    for cfg in ("MC_Batching_front.cfg", "MC_Batching_inplace.cfg"):
+        rb = run_tlc("MC_Batching", cfg, timeout=1200, workers=8)
+        tlc_must_pass(rb, "J2O_Batching")
+        ctx.add_tlc(rb, f"J2O_Batching {cfg[12:-4]}")
+        if rb.violated:
+            raise MachineryError(f"J2O_Batching: {rb.violated} violated by a sound rule ({cfg})")
+        cleanup_tlc(rb)
+    if not ctx.quick:
+        for cfg in ("MC_BatchingDev_keep.cfg", "MC_BatchingDev_canon_batch.cfg"):
+            rd = run_tlc("MC_Batching", cfg, timeout=600, coverage=False)
+            if not rd.violated:
+                raise MachineryError(f"self test: deviating batching rule {cfg} is not rejected")
+            cleanup_tlc(rd)
+        ctx.extra["selftest_deviating_batching_rules_rejected"] = True
+    re_ = run_tlc("MC_Batching", "MC_BatchingEmit.cfg", timeout=1200, workers=1, coverage=False)
+    cases = parse_tlc_values(re_.output.splitlines())
+    cleanup_tlc(re_)
+    if not cases:
+        raise MachineryError("J2O_Batching emitted no cases")
+    tasks = B.plan(cases, kind, 12)
+    res = run_tasks([{"fn": "harness.checks.c01:_axis_job", "args": t, "timeout": 1500} for t in tasks], nworkers=14, timeout=3000)
+    outs = []
+    for task, out in res:
+        if out.get("status") != "ok":
+            if out.get("status") in ("timeout", "crash"):
+                ctx.extra.setdefault("axis_tasks_timed_out", 0)
+                ctx.extra["axis_tasks_timed_out"] += 1
+                continue
+            raise MachineryError(f"axis-operator worker failed: {str(out)[:700]}")
+        outs.append(out["result"])
+    n = B.fold(ctx, outs, ctx.pid, engine)
+    ctx.extra[f"{engine}_cases_run"] = n
+    ctx.cov["evaluations"] += n
+    return n
+
+
 def run(ctx: Ctx) -> None:
     rng = random.Random(ctx.seed)
     r = run_tlc("MC_OpSem", "MC_OpSem.cfg", timeout=900, workers=1)
@@ -97,6 +143,7 @@ def run(ctx: Ctx) -> None:
                 ctx.violation({"engine": "corpus_diff", "testcase": rec["key"], "what": p["what"], "lattice_draw": p["draw"] > 0}, f"{rec['key']} (draw {p['draw']}{', lattice' if p['draw'] > 0 else ', author inputs'}): {p['what']}: {p['detail']}", rec)
             if len(ctx.cov["samples"]) < 9 and rec["draws"] > 1:
                 ctx.sample({"kind": "corpus", "testcase": rec["key"], "input_vectors_compared": rec["draws"], "draws_outside_domain": rec["discarded"], "problems": rec["problems"][:2]})
+    axis_operator_replay(ctx, "direct", "axis_direct")
     ctx.extra["corpus_status"] = stats
     ctx.extra["input_vectors_compared"] = draws
     ctx.extra["lattice_draws_outside_domain"] = discarded
